@@ -47,6 +47,10 @@ def run_model(histories):
     return res
 
 
+DRIFT = '__drift__'
+MUST_REJECT = None
+
+
 def kvs(s):
     d = {}
     for t in s.split():
@@ -69,6 +73,13 @@ def compare(line, robs, mobs):
     if robs.startswith('err') or mobs.startswith('err'):
         if robs.startswith('err') and mobs.startswith('err'):
             return None
+        if mobs.startswith('err') and not robs.startswith('err'):
+            # the model rejects, the implementation accepts: a violation only where the property itself
+            # demands the rejection (MUST_REJECT hook of the property module); otherwise "drift" —
+            # an implementation may legitimately accept more than the model does
+            if MUST_REJECT is not None and MUST_REJECT(line):
+                return 'the property requires this call to be rejected: real=%s model=%s' % (robs[:60], mobs[:60])
+            return DRIFT
         return 'real=%s model=%s' % (robs[:60], mobs[:60])
     op = line.split()[0]
     if op == 'interp':
@@ -183,6 +194,7 @@ def check_histories(histories, stats=None, pair_check=None):
     models = run_model([ml for (_, ml) in reals])
     diffs = []
     for hi, (h, (robs, mlines), mobs) in enumerate(zip(histories, reals, models)):
+        drifted = False
         for si, (ln, ro, mo) in enumerate(zip(h, robs, mobs)):
             if stats is not None:
                 stats.count(ln, ro, mo)
@@ -190,7 +202,16 @@ def check_histories(histories, stats=None, pair_check=None):
                 if stats is not None:
                     stats.discarded += 1
                 break
+            if drifted and ln.split()[0] not in ('state', 'fitsraw'):
+                continue          # model state no longer comparable; layout / read-path checks continue
             why = compare(ln, ro, mo)
+            if why == DRIFT:
+                drifted = True
+                if stats is not None:
+                    stats.drift += 1
+                continue
+            if drifted and why is not None and 'lit=' not in mo:
+                continue
             if why is not None:
                 diffs.append(Diff(hi, si, ln, why, ro, mo))
                 break
